@@ -284,6 +284,59 @@ def client_script_case(ctx, script: list, prefixes: tuple[str, str] = ("in", "ou
                 return
 
 
+def client_publish_case(ctx, prefixes: tuple[str, str], lines: list[str]) -> None:
+    """MQTTClient on the fake client: what reaches the client's publish() for each written line."""
+    from aiomysensors.transport.mqtt import MQTTClient
+
+    case = {"kind": "client-publish", "prefixes": list(prefixes), "lines": lines}
+    log: dict = {}
+
+    async def scenario() -> None:
+        transport = MQTTClient("broker.invalid", 1883, in_prefix=prefixes[0], out_prefix=prefixes[1])
+        await transport.connect()
+        client = FakeClient.instances[-1]
+        log["subscriptions"] = list(client.subscriptions)
+        errors = []
+        for line in lines:
+            try:
+                await transport.write(line)
+            except Exception as exc:  # noqa: BLE001
+                errors.append(f"{type(exc).__name__}: {exc!s:.60}")
+        log["published"] = list(client.published)
+        log["errors"] = errors
+        await transport.disconnect()
+
+    with install() as seam:
+        if not seam:
+            ctx.skip("fake-client", "no aiomqtt client seam in aiomysensors.transport.mqtt")
+            return
+        result, _loop = run_virtual(scenario)
+    ctx.case(("client-publish", prefixes, tuple(lines)), sample=case)
+    ctx.clause("client-publish-arguments")
+    if isinstance(result, LogicalDeadlock):
+        ctx.violation("mqtt-deaf", "logical deadlock while publishing", case)
+        return
+    if log["errors"]:
+        ctx.violation("write-raises", f"write raised {log['errors'][:2]}", case)
+        return
+    want = []
+    for line in lines:
+        n, c, cmd, ack, t, payload = line.rstrip("\n").split(";", 5)
+        want.append((f"{prefixes[1]}/{n}/{c}/{cmd}/{ack}/{t}", payload, int(ack), False))
+    got = [(topic, "" if payload is None else (payload.decode() if isinstance(payload, bytes) else payload), qos, retain)
+           for topic, payload, qos, retain in log["published"]]
+    if got != want:
+        ctx.violation("publish-arguments-differ", f"client.publish received {got!r:.200}, expected {want!r:.200}", case)
+    from paho.mqtt.client import topic_matches_sub
+
+    ctx.clause("client-subscriptions")
+    for cmd in range(5):
+        topic = f"{prefixes[0]}/7/255/{cmd}/1/33"
+        if not any(topic_matches_sub(sub, topic) for sub, _q in log["subscriptions"]):
+            ctx.violation("subscription-misses-topic", f"client subscriptions {log['subscriptions']} do not match {topic!r}", case)
+            break
+
+
 # ----------------------------------------------------------------------------- mini broker (thorough)
 async def broker_case(ctx, n_messages: int, seed: int) -> None:
     import random
@@ -357,6 +410,8 @@ def run_case(ctx, case: dict) -> None:
         script = [tuple(bytes.fromhex(x["__bytes__"]) if isinstance(x, dict) else x for x in op) if isinstance(op, list) else op
                   for op in case["script"]]
         client_script_case(ctx, script, tuple(case["prefixes"]))
+    elif kind == "client-publish":
+        client_publish_case(ctx, tuple(case["prefixes"]), case["lines"])
     elif kind == "minibroker":
         arun(broker_case(ctx, case["messages"], case["seed"]))
 
@@ -414,6 +469,12 @@ def run(ctx) -> None:
             if rng.random() < 0.5:
                 script.insert(rng.randrange(len(script) + 1), "disconnect")
             client_script_case(ctx, script, rng.choice(PREFIXES[:6]))
+        for i in range(ctx.pick(60, 2000) // ctx.shard_count + 1):
+            lines = []
+            for _ in range(rng.randint(1, 6)):
+                head = gens.random_wellformed(rng)
+                lines.append(";".join(str(x) for x in head) + ";" + rng.choice(["", "0", "5", "a;b", "x/y", "日本", "v v"]) + "\n")
+            client_publish_case(ctx, rng.choice(PREFIXES), lines)
         if not ctx.quick:
             try:
                 for i in range(2):
